@@ -211,10 +211,13 @@ def mask_wiring(prog, an, rep):
                     x in par.args)
                 # mask_pwd written out: x.replace(pwd, '***') if pwd else x
                 up = par
-                for _ in range(3):
+                for _ in range(6):
                     if isinstance(up, ast.IfExp) and \
                             is_replace_if_present(up):
                         okp = True
+                    if isinstance(up, ast.Call) and \
+                            src(up.func) == 'isinstance' and x in up.args:
+                        okp = True      # a type test shows nothing
                     up = pm.get(up)
                 if x.id == 'output':
                     st = [s for s, _ in stores_to(g, 'output')]
